@@ -206,7 +206,9 @@ impl Property for C02 {
             let mut touched: Vec<(u8, u8)> = vec![];
             match op {
                 Op::UpgradeAndMigrate => {
-                    upgrade_and_migrate(&env, &w.gw.id).map_err(|e| format!("step {}: {}", step, e))?;
+                    // (should the tree's migration take data, the owner names every message of the history so far)
+                    let hints = MigHints { pairs: model.keys().map(|(c, i)| (CHAINS[*c as usize].to_string(), IDS[*i as usize].to_string())).collect(), ..Default::default() };
+                    upgrade_and_migrate_with(&env, &w.gw.id, &hints).map_err(|e| format!("step {}: {}", step, e))?;
                     cx.label("upgrade_and_migration_in_history");
                     nontrivial = true;
                     touched.extend(model.keys().cloned());
